@@ -53,6 +53,7 @@ func (t *T) fix() {
 
 func (t *T) clone() *T {
 	n := *t
+	n.S = append([]byte(nil), t.S...)
 	n.Keys = append([]string(nil), t.Keys...)
 	n.C = make([]*T, len(t.C))
 	for i, c := range t.C {
@@ -340,7 +341,7 @@ func (p *P) String() string {
 // numStrict=false lets int(1) and float(1.0) pass (JSON has one number type).
 func diff(e, g *P, numStrict bool) string {
 	if e.K != g.K {
-		if (e.K == 'i' && g.K == 'f' && float64(e.I) == g.F && int64(g.F) == e.I) || (e.K == 'f' && g.K == 'i' && float64(g.I) == e.F && (math.Abs(e.F) < 1<<62 && int64(e.F) == g.I)) {
+		if (e.K == 'i' && g.K == 'f' && float64(e.I) == g.F && math.Abs(g.F) < 1<<63 && int64(g.F) == e.I) || (e.K == 'f' && g.K == 'i' && float64(g.I) == e.F && (math.Abs(e.F) < 1<<63 && int64(e.F) == g.I)) {
 			if numStrict {
 				return "numtype"
 			}
@@ -545,6 +546,9 @@ func (t *T) rank() int {
 			r = 3
 		}
 	}
+	if t.K == 'l' || t.K == 'm' || t.K == 'k' {
+		r = 1
+	}
 	for i, c := range t.C {
 		r += c.rank()
 		if i < len(t.Keys) && t.Keys[i] != string(rune('a'+i)) {
@@ -569,9 +573,9 @@ func shrinks(t *T) []*T {
 		}
 		out = append(out, n)
 	}
-	// leaf -> int 0 ; string -> shorter / all-'a'
+	// anything -> int 0 ; string -> shorter / all-'a'
 	switch t.K {
-	case 'n', 'b', 'f', 's':
+	case 'n', 'b', 'f', 's', 'l', 'm', 'k':
 		out = append(out, tInt(0))
 	case 'i':
 		if t.I != 0 {
